@@ -21,6 +21,8 @@ NUM_CAT_POOLS = {
     "ints": [1, 2, 3, 10, 20, 0, -1, 7],
     "floats": [1.5, 2.0, 3.0, 0.25, 10.0, -2.5, 7.0],
     "numstr": ["1", "2", "3.5", "10", "02", "-1"],
+    "bools": [True, False],
+    "flags": [0.0, 1.0],
 }
 WEIGHTS = [0, 1, 1, 2, 3, 5, 8]
 CONT_WEIGHTS = [0, 1, 1, 1, 2]
@@ -131,8 +133,10 @@ def feature_spec(draw, name, kind, blocks, dev_mode, dev_blocks, quant_pools=Non
         spec["ranking"] = list(values)
         wpool = WEIGHTS
     elif kind == "categorical":
-        flavour = draw(st.sampled_from(["str", "str", "str", "ints", "floats", "numstr", "mixed"]))
+        flavour = draw(st.sampled_from(["str", "str", "str", "str", "ints", "floats", "numstr", "mixed", "bools", "flags"]))
         n_mod = draw(st.integers(2, 10))
+        if flavour in ("bools", "flags"):
+            n_mod = 2
         if flavour == "str":
             values = draw(st.permutations(STR_POOL))[:n_mod]
         elif flavour == "mixed":
